@@ -45,6 +45,7 @@ type attempt struct {
 	Off     uint64   `json:"offset,omitempty"`
 	Len     uint64   `json:"length,omitempty"`
 	BadSig  int      `json:"bad_signature_variant,omitempty"`
+	Raw     bool     `json:"raw,omitempty"` // listing: complete script on the raw stream (the proof is observed)
 }
 
 const unknownBase = 1000
@@ -58,6 +59,9 @@ func (a attempt) String() string {
 		s += fmt.Sprint(a.Sectors)
 	case kindRoots:
 		s += fmt.Sprintf("[%d,+%d]", a.Off, a.Len)
+		if a.Raw {
+			s += "raw"
+		}
 	}
 	return s
 }
@@ -68,6 +72,7 @@ type observed struct {
 	accepted  []bool          // append: the host's accepted flags (nil if the response was not read)
 	listed    []types.Hash256 // roots: the returned roots
 	gotResp   bool            // the first response was read
+	proofLen  int             // roots on the raw stream: number of hashes in the proof (-1: not observed)
 	result    *types.V2FileContract
 }
 
@@ -108,6 +113,7 @@ func closeAndForget(s io.Closer) { s.Close() }
 func (e *env) run(a attempt, before snap) (ob observed) {
 	ctx := context.Background()
 	rev := rhp4.ContractRevision{ID: e.cid, Revision: before.rev}
+	ob.proofLen = -1
 	fail := func(err error) observed {
 		if err != nil {
 			ob.clientErr = err.Error()
@@ -141,7 +147,7 @@ func (e *env) run(a attempt, before snap) (ob observed) {
 			}
 		}
 		return fail(err)
-	case a.Kind == kindRoots && a.Script == scriptComplete:
+	case a.Kind == kindRoots && a.Script == scriptComplete && !a.Raw:
 		res, err := rhp4.RPCSectorRoots(ctx, e.tc, e.cs, e.prices, e.renterKey, rev, a.Off, a.Len)
 		if err == nil {
 			ob.result = &res.Revision
@@ -284,7 +290,11 @@ func (e *env) run(a attempt, before snap) (ob observed) {
 		if err := proto4.ReadResponse(s, &resp); err != nil {
 			return fail(err)
 		}
-		ob.gotResp, ob.listed = true, resp.Roots
+		ob.gotResp, ob.listed, ob.proofLen = true, resp.Roots, len(resp.Proof)
+		if a.Script != scriptBadSignature && a.Off+a.Len <= uint64(len(before.roots)) && a.Len > 0 && uint64(len(resp.Roots)) == a.Len &&
+			!proto4.VerifySectorRootsProof(resp.Proof, resp.Roots, uint64(len(before.roots)), a.Off, a.Off+a.Len, before.rev.FileMerkleRoot) {
+			ob.clientErr = "sector roots proof does not verify"
+		}
 		revision.RenterSignature, revision.HostSignature = sig, resp.HostSignature
 		ob.result = &revision
 	}
